@@ -859,12 +859,12 @@ func sorted(s *scope, args []pyObject) pyObject {
 	// Sort a copy: the caller's list must not change.
 	l = slices.Clip(slices.Clone(l))
 	if key == nil {
-		sort.Slice(l, func(i, j int) bool {
+		sort.SliceStable(l, func(i, j int) bool {
 			return s.operator(order, l[i], l[j]).IsTruthy()
 		})
 	} else {
 		s.Assert(isFunc, "Argument key must be callable, not %s", args[1].Type())
-		sort.Slice(l, func(i, j int) bool {
+		sort.SliceStable(l, func(i, j int) bool {
 			iKey := key.Call(s, &Call{
 				Arguments: []CallArgument{{
 					Value: Expression{optimised: &optimisedExpression{Constant: l[i]}},
